@@ -1,4 +1,5 @@
 """C19 -- schema construction is total: any text or node graph gives Ok/Err, never a crash."""
+import re as _re
 import json as pyjson, random
 import common as C
 import gen as G
@@ -280,6 +281,9 @@ def run(ctx):
               and not any(key >= len(gof[l]) for x in gof[l] for key in keys_of(x))]
     for g in frozen:
         sch = G.schema_sx(g)
+        if any(int(m) > (1 << 20) for m in _re.findall(r"\(fixed x[0-9a-f]* ([0-9]+)\)", sch)):
+            dist["use/skipped-huge-fixed"] += 1     # a fixed of gigabytes: writing it is what the schema asks for, it only takes time
+            continue
         for _ in range(3):
             use_lines.append("ser %s %s" % (sch, edge_pres(rng, g, 0, edges)))
     uschemas = use_schemas(rng)
